@@ -14,6 +14,7 @@ import RtenVerif.Lemmas.Append
 import RtenVerif.Props.C08
 import RtenVerif.Lemmas.WFOwned
 import RtenVerif.Lemmas.Copy
+import RtenVerif.Lemmas.CopyRange
 
 /-!
 # C09 — Layout transformations match a reference array model
@@ -1704,6 +1705,81 @@ theorem c09_slice_copy_step (t : TState) (items : List SliceItem) (hr : rangesOn
       rfl
     rw [hL, hR]
     exact ⟨rfl, fun t' h => by cases h⟩
+
+/-! ## The copying loop of `slice_copy` (`copy_range_into_slice`), loop level -/
+
+/-- **C09 copy_range_into_slice, loop level** (code after fix `2a7721f`).  For every number of
+axes and every list of resolved index ranges (reversed, stepped, empty, …), writing into an
+output buffer of exactly `∏ steps` elements, the loop nest — the four-deep `dest_offset` loop
+and, for more axes, the recursion that splits the buffer by the *sliced* sub-tensor length —
+(a) returns exactly the elements at the Cartesian product of the ranges in row-major order,
+which is the data of the reference `NArr.gather`, and (b) passes every length assertion on the
+way (`assert_eq!(dest.len(), sliced_len)`, `split_at_mut`, `assert!(dest.is_empty())`). -/
+theorem c09_copy_range_loop (A : NArr Nat) (ranges : List (List Nat)) (dest : List Nat)
+    (hrank : ranges.length = A.shape.length) (hd : dest.length = CopyRange.prodLen ranges) :
+    CopyRange.copyRangeIntoSlice A.get dest ranges =
+      .ok (NArr.gather (ranges.map Sel.take) A).data := by
+  rw [CopyRange.copyRangeIntoSlice_spec ranges A.get dest hd, CopyRange.gather_data A ranges hrank]
+
+theorem copyRanges_length (d : Dims) (items : List SliceItem) (lists : List (List Nat))
+    (h : copyRanges d items = .ok lists) : lists.length = d.length := by
+  induction d generalizing items lists with
+  | nil =>
+    cases items with
+    | nil => simp only [copyRanges] at h; injection h with h; subst h; rfl
+    | cons it its => simp [copyRanges] at h
+  | cons p ds ih =>
+    obtain ⟨n, st⟩ := p
+    cases items with
+    | nil =>
+      simp only [copyRanges, bind, Except.bind] at h
+      cases hr : copyRanges ds [] with
+      | error e => simp [hr] at h
+      | ok rest =>
+        simp only [hr, pure, Except.pure] at h
+        injection h with h; subst h
+        simp [ih [] rest hr]
+    | cons it its =>
+      simp only [copyRanges, bind, Except.bind] at h
+      cases hi : it.indexRange n with
+      | error e => simp [hi] at h
+      | ok ir =>
+        simp only [hi] at h
+        cases hr : copyRanges ds its with
+        | error e => simp [hr] at h
+        | ok rest =>
+          simp only [hr, pure, Except.pure] at h
+          injection h with h; subst h
+          simp [ih its rest hr]
+
+/-- The loop-level model and the gather-level model of `slice_copy`'s copying path agree: with
+the index lists and the buffer length `slice_copy_in` computes (`∏ sliced_shape`, checked equal
+to `∏ steps`), the loop fills the buffer with exactly the data `sliceCopy` installs. -/
+theorem c09_slice_copy_loop (t : TState) (items : List SliceItem) (shp : List Nat)
+    (lists : List (List Nat)) (dest : List Nat)
+    (hl : copyRanges t.view.dims items = .ok lists)
+    (hn : numel shp = numel (lists.map List.length)) (hd : dest.length = numel shp) :
+    CopyRange.copyRangeIntoSlice t.arr.get dest lists =
+      .ok (NArr.gather (lists.map Sel.take) t.arr).data := by
+  apply c09_copy_range_loop
+  · rw [copyRanges_length _ _ _ hl]; simp [TState.arr, denote]
+  · rw [hd, hn]; rfl
+
+/-- **The pre-fix loop is wrong** (witnesses for finding `C09-slice-copy-rank5-split`): on a
+`[2,2,2,2,3]` source with the last axis sliced `-1::-2` (indices `[2, 0]`) the old code, which
+split the buffer by the full sub-tensor length (24 instead of 16), fails the inner
+`assert_eq!` — a panic — where the fixed loop returns the 32 selected elements; and with an
+outer range that selects nothing the old code returned the buffer untouched (uninitialised
+memory, here the marker 7) where the fixed loop panics on `assert!(dest.is_empty())`. -/
+theorem c09_copy_range_old_false :
+    let src : List Nat → Nat := fun idx => idx.foldl (fun a i => 3 * a + i) 0
+    CopyRange.copyInnerOld src (List.replicate 32 7) [2, 2, 2, 2, 3]
+        [[0, 1], [0, 1], [0, 1], [0, 1], [2, 0]] = .error .panic ∧
+    CopyRange.copyInner src (List.replicate 32 7) [[0, 1], [0, 1], [0, 1], [0, 1], [2, 0]] =
+        .ok ((CopyRange.cart [[0, 1], [0, 1], [0, 1], [0, 1], [2, 0]]).map src) ∧
+    CopyRange.copyInnerOld src [7, 7] [2, 1, 1, 1, 1] [[], [0], [0], [0], [0]] = .ok [7, 7] ∧
+    CopyRange.copyInner src [7, 7] [[], [0], [0], [0], [0]] = .error .panic := by
+  refine ⟨by rfl, by rfl, by rfl, by rfl⟩
 
 /-! ## T2 on tensor states: view operations, `to_contiguous` and `reshaped` in one chain -/
 
